@@ -988,7 +988,11 @@ def main(ctx):
         'two/three-child constructors (Pseq, Pser, Ptuple, binop, Pswitch, '
         'Pswitch1, Pif, narop, Pwrap, Pstutter, Pclump, Place) over pairs '
         'from an 18-element child pool; pattern-valued Pslide length/step, '
-        'Pflatten(Pclump), nested Pseed. thorough adds single-child uses '
+        'Pflatten(Pclump), nested Pseed; 9 operator patterns (clip/neg/abs/'
+        'sub/mul) with finite, non-constant, differing-length pattern '
+        'operands at top level, under each of the 8 embedding constructors, '
+        'shared twice in one list, and under every single-child use. '
+        'thorough adds single-child uses '
         'over all 177 children, pairs over 123 children and depth 3 (8 '
         'embedding constructors applied twice, then every single-child use '
         'on top). Each expression is run via stream.next(inval), the '
